@@ -77,6 +77,7 @@ pub struct SimInner {
     pub cur_task: usize,
     pub modifying_reqs: usize,
     pub max_len: usize, // refuse to grow beyond this (models ENOSPC / runaway)
+    pub partial_at_limit: bool, // file size limit (RLIMIT_FSIZE): a write across it stores the part below it, then fails
 }
 
 #[derive(Clone)]
@@ -101,11 +102,27 @@ impl SimFile {
             cur_task: 0,
             modifying_reqs: 0,
             max_len: 1 << 30,
+            partial_at_limit: false,
         })))
     }
 
     pub fn snapshot(&self) -> Vec<u8> {
         self.0.borrow().data.clone()
+    }
+
+    /// file size limit as RLIMIT_FSIZE gives it (None: no limit)
+    pub fn set_size_limit(&self, limit: Option<usize>) {
+        let mut s = self.0.borrow_mut();
+        match limit {
+            Some(l) => {
+                s.max_len = l;
+                s.partial_at_limit = true;
+            }
+            None => {
+                s.max_len = 1 << 30;
+                s.partial_at_limit = false;
+            }
+        }
     }
 
     pub fn set_op(&self, op: usize) {
@@ -245,6 +262,16 @@ impl SimFile {
             Kind::Write => {
                 let end = off as usize + len;
                 if end > s.max_len {
+                    if s.partial_at_limit && (off as usize) < s.max_len {
+                        let keep = s.max_len - off as usize;
+                        if s.max_len > s.data.len() {
+                            let ml = s.max_len;
+                            s.data.resize(ml, 0);
+                        }
+                        let p = s.log[id].payload.clone().unwrap();
+                        let o = off as usize;
+                        s.data[o..o + keep].copy_from_slice(&p[..keep]);
+                    }
                     false
                 } else {
                     if end > s.data.len() && len > 0 {
